@@ -17,11 +17,20 @@ COQ_FILES = ['props/C14.v']
 RULE = ('a case is one ticker (interval|delay, start date, period incl. 0 and negative, list of body '
         'durations each chosen <, =, > the period or 0, optional enclosing until(time+T)); 1-3 tickers '
         'per usim.run share a Scope; distinct = distinct (kind, start, period, durations, horizon, '
-        'neighbours); non-trivial = at least two ticks or an exception')
+        'neighbours); non-trivial = at least two ticks or an exception.  Two implementation-only '
+        'families (monitor only, NO Coq comparison -- the model is over Z): `float` = interval/delay with '
+        'periods 0.1/0.3/0.7/1.1/2, starts 0/0.2/0.3, bodies of 0, p/2 and exactly p (`await (time + p)` or '
+        '`await (time == tick + p)`), oracle on the same float expressions as the documented semantics; '
+        '`closed` = tickers in volatile tasks / under until() / in a failing scope / under run(till=) that '
+        'are closed by force in the middle of a pause while other tickers go on')
 TRUSTED = ['wrappers installed from outside on usim._primitives.timing.postpone/suspend record how each '
            'step yielded; marker tasks spawned with Scope.do() at every tick observe whether another '
            'activity ran before the next tick']
-ASSUMPTIONS = ['times are integers (exact arithmetic); body durations are produced by `await (time + d)`',
+ASSUMPTIONS = ['times are integers (exact arithmetic) in every case that is compared with the Coq model; body '
+               'durations are produced by `await (time + d)`',
+               'float family: not compared with the model; a tick must be within 1e-9 of last + p and of the '
+               'grid, exactly last + p when the body ended exactly there, and IntervalExceeded is demanded '
+               'exactly when body_end > tick + p as floats',
                'the consumer asks for one more tick after the last body and then leaves the loop']
 
 OUTCOMES = {'completed': 0, 'exceeded': 1, 'valueerror': 2, 'interrupted': 3}
@@ -336,17 +345,330 @@ def batch(ctx, n_cases, with_model=True):
         run_case_chunks(ctx, 'ticker', HEADER, texts, cases, lambda j: obss[j], chunk=400)
 
 
+
+# ------------------------------------------------------------------ float family (implementation only)
+FLOAT_PERIODS = [0.1, 0.3, 0.7, 1.1, 2]
+FLOAT_STARTS = [0, 0.2, 0.3]
+FLOAT_BODIES = ['zero', 'half', 'full_delay', 'full_moment']
+
+
+def run_float(case):
+    """one interval()/delay() with float period; returns dict(ticks, ends, outcome, t0, error)"""
+    out = dict(ticks=[], ends=[], outcome=None, t0=None, error=None, raised_at=None)
+    p, bodies, n = case['p'], case['bodies'], case['n']
+    make = interval if case['kind'] == 'interval' else delay
+
+    async def main():
+        if case['start'] and not case['run_start']:
+            await (time + case['start'])
+        out['t0'] = time.now
+        k = 0
+        try:
+            async for now in make(p):
+                tick = time.now
+                out['ticks'].append((tick, now))
+                if k == n:
+                    break
+                b = bodies[k % len(bodies)]
+                k += 1
+                if b == 'half':
+                    await (time + p / 2)
+                elif b == 'full_delay':
+                    await (time + p)
+                elif b == 'full_moment':
+                    await (time == tick + p)
+                elif b == 'over':
+                    await (time + p * 1.5)
+                out['ends'].append(time.now)
+            out['outcome'] = 'completed'
+        except IntervalExceeded:
+            out['outcome'], out['raised_at'] = 'exceeded', time.now
+
+    try:
+        usim.run(main(), start=case['start'] if case['run_start'] else 0)
+    except KeyboardInterrupt:
+        raise
+    except BaseException as e:  # noqa
+        out['error'] = '%s: %r' % (type(e).__name__, e)
+    return out
+
+
+def monitor_float(case, out):
+    bad = []
+    if out['error'] is not None:
+        return ['an exception left usim.run(): ' + out['error']]
+    p, kind = case['p'], case['kind']
+    ticks, ends, t0 = out['ticks'], out['ends'], out['t0']
+    tol = 1e-9
+    for k, (tick, v) in enumerate(ticks):
+        if v != tick:
+            bad.append('tick %d yielded %r but the time is %r' % (k, v, tick))
+        if kind == 'interval':
+            last = t0 if k == 0 else ticks[k - 1][0]
+            want = last + p          # documented: resume at last + p
+            if abs(tick - want) > tol:
+                bad.append('interval(%r) tick %d resumed at %r, previous tick %r + period = %r' % (p, k, tick, last, want))
+            if k > 0 and ends[k - 1] == want and tick != want:
+                bad.append('interval(%r): body %d ended exactly at %r = tick + period but tick %d is at %r'
+                           % (p, k - 1, want, k, tick))
+            if abs(tick - (t0 + (k + 1) * p)) > tol * (k + 2):
+                bad.append('interval(%r) tick %d at %r is off the grid %r' % (p, k, tick, t0 + (k + 1) * p))
+        else:
+            prev_end = t0 if k == 0 else ends[k - 1]
+            if tick != prev_end + p:
+                bad.append('delay(%r) tick %d at %r, previous body ended at %r' % (p, k, tick, prev_end))
+    if kind == 'interval':
+        for k, end in enumerate(ends):
+            limit = ticks[k][0] + p
+            again = k + 1 < len(ticks)
+            if end > limit and again:
+                bad.append('body %d ended at %r > tick + period %r but the interval ticked again' % (k, end, limit))
+            if end <= limit and not again and out['outcome'] == 'exceeded':
+                bad.append('interval(%r) started at %r raised IntervalExceeded after %d ticks although body %d '
+                           'ended at %r <= tick + period = %r (no body took longer than the period)'
+                           % (p, t0, len(ticks), k, end, limit))
+        if out['outcome'] == 'exceeded' and not ends:
+            bad.append('IntervalExceeded before any body ran')
+    elif out['outcome'] == 'exceeded':
+        bad.append('delay() raised IntervalExceeded')
+    if out['outcome'] == 'completed' and len(ticks) != case['n'] + 1:
+        bad.append('completed with %d ticks for %d bodies' % (len(ticks), case['n']))
+    if out['outcome'] is None:
+        bad.append('ticker ended without outcome')
+    return bad
+
+
+FLOAT_CORNERS = [
+    dict(kind='interval', p=0.1, start=0, run_start=False, bodies=['full_delay'], n=30),
+    dict(kind='interval', p=0.7, start=0, run_start=False, bodies=['zero', 'full_delay'], n=30),
+    dict(kind='interval', p=2, start=0.3, run_start=False, bodies=['full_delay', 'half', 'full_moment'], n=30),
+    dict(kind='interval', p=2, start=0.3, run_start=True, bodies=['full_moment'], n=30),
+    dict(kind='interval', p=0.3, start=0.2, run_start=True, bodies=['half', 'full_delay'], n=40),
+    dict(kind='interval', p=1.1, start=0.2, run_start=False, bodies=['zero', 'half', 'full_moment'], n=40),
+    dict(kind='delay', p=0.1, start=0.3, run_start=False, bodies=['full_delay', 'half'], n=20),
+    dict(kind='interval', p=0.1, start=0.3, run_start=False, bodies=['full_delay', 'over'], n=5),
+]
+
+
+def gen_float(rng, i):
+    if i < len(FLOAT_CORNERS):
+        return dict(FLOAT_CORNERS[i])
+    bodies = [rng.choice(FLOAT_BODIES) for _ in range(rng.randint(1, 4))]
+    if rng.random() < 0.05:
+        bodies.append('over')
+    return dict(kind='interval' if rng.random() < 0.85 else 'delay', p=rng.choice(FLOAT_PERIODS),
+                start=rng.choice(FLOAT_STARTS), run_start=rng.random() < 0.5, bodies=bodies,
+                n=rng.randint(5, 60))
+
+
+def float_family(ctx, n_cases):
+    for i in range(n_cases):
+        case = gen_float(ctx.rng, i)
+        out = run_float(case)
+        key = dict(family='float', **case)
+        ctx.count(key, nontrivial=len(out['ticks']) >= 2, validated=False)
+        ctx.bump('float:period:%r' % case['p'])
+        ctx.bump('float:outcome:%s' % out['outcome'])
+        for b in set(case['bodies']):
+            ctx.bump('float:body:' + b)
+        problems = monitor_float(case, out)
+        if problems:
+            ctx.fail(key, '; '.join(problems[:3]), family='float')
+
+
+# ------------------------------------------------------------------ tickers closed by force mid-pause
+class BodyError(Exception):
+    pass
+
+
+def run_closed(case):
+    """victim tickers are closed by force (volatile at scope end / until / failing scope / run(till=))
+    while survivors and a later ticker go on.  Returns dict(logs, error, t_close, t_end)."""
+    res = dict(error=None, t_close=None, t_end=None, logs={})
+
+    def mklog(name, spec):
+        res['logs'][name] = log = dict(spec=spec, ticks=[], ends=[], t0=None, outcome=None)
+        return log
+
+    async def clock(spec, log, n=None):
+        make = interval if spec['kind'] == 'interval' else delay
+        log['t0'] = time.now
+        ds, k = spec['ds'], 0
+        try:
+            async for now in make(spec['p']):
+                log['ticks'].append((time.now, now))
+                if n is not None and k == n:
+                    break
+                d = ds[k % len(ds)] if ds else 0
+                k += 1
+                if d:
+                    await (time + d)
+                log['ends'].append(time.now)
+            log['outcome'] = 'completed'
+        except IntervalExceeded:
+            log['outcome'] = 'exceeded'
+
+    mode = case['mode']
+
+    async def main():
+        async with Scope() as outer:
+            for j, spec in enumerate(case['survivors']):
+                outer.do(clock(spec, mklog('survivor%d' % j, spec)), volatile=True)
+            try:
+                if mode == 'until':
+                    async with until(time + case['B']) as scope:
+                        for j, spec in enumerate(case['victims']):
+                            scope.do(clock(spec, mklog('victim%d' % j, spec)))
+                        inline = case['victims'][0]
+                        await clock(inline, mklog('victim_inline', inline))
+                else:
+                    async with Scope() as scope:
+                        for j, spec in enumerate(case['victims']):
+                            scope.do(clock(spec, mklog('victim%d' % j, spec)), volatile=(mode != 'raise'))
+                        await (time + case['B'])
+                        if mode == 'raise':
+                            raise BodyError()
+            except BodyError:
+                pass
+            res['t_close'] = time.now
+            later = case['later']
+            await clock(later, mklog('later', later), n=later['n'])
+            res['t_end'] = time.now
+
+    try:
+        if mode == 'till':
+            usim.run(main(), start=case['start'], till=case['start'] + case['till'])
+            res['t_end'] = res['t_end'] if res['t_end'] is not None else case['start'] + case['till']
+        else:
+            usim.run(main(), start=case['start'])
+    except KeyboardInterrupt:
+        raise
+    except BaseException as e:  # noqa
+        res['error'] = '%s: %r' % (type(e).__name__, e)
+    return res
+
+
+def monitor_closed(case, res):
+    bad = []
+    if res['error'] is not None:
+        return ['the run raised although tickers were only closed by force mid-pause: ' + res['error']]
+    hard_end = case['start'] + case['till'] if case['mode'] == 'till' else None
+    for name, log in sorted(res['logs'].items()):
+        spec, ticks, ends, t0 = log['spec'], log['ticks'], log['ends'], log['t0']
+        p = spec['p']
+        if t0 is None:
+            continue
+        for k, (tick, v) in enumerate(ticks):
+            if v != tick:
+                bad.append('%s: tick %d yielded %r at time %r' % (name, k, v, tick))
+            want = t0 + (k + 1) * p if spec['kind'] == 'interval' else (t0 if k == 0 else ends[k - 1]) + p
+            if tick != want:
+                bad.append('%s: %s(%r) tick %d at %r, expected %r' % (name, spec['kind'], p, k, tick, want))
+        if log['outcome'] == 'exceeded':
+            bad.append('%s: IntervalExceeded although every body takes at most the period' % name)
+        # how long the ticker was alive: victims until the closure, the others until the end
+        if name.startswith('victim'):
+            alive_until = res['t_close'] if res['t_close'] is not None else hard_end
+        else:
+            alive_until = res['t_end'] if res['t_end'] is not None else hard_end
+        if hard_end is not None and (alive_until is None or alive_until > hard_end):
+            alive_until = hard_end
+        if alive_until is None:
+            continue
+        if ticks and ticks[-1][0] > alive_until:
+            bad.append('%s ticked at %r after it was closed at %r' % (name, ticks[-1][0], alive_until))
+        if name == 'later':
+            if hard_end is None and (len(ticks) != spec['n'] + 1 or log['outcome'] != 'completed'):
+                bad.append('later %s(%r) made %d of %d ticks' % (spec['kind'], p, len(ticks), spec['n'] + 1))
+            continue
+        # every tick that is due strictly before the closure must have happened
+        t, k, due = t0, 0, 0
+        ds = spec['ds']
+        while True:
+            t = t + p
+            if t >= alive_until:
+                break
+            due += 1
+            if spec['kind'] == 'delay':
+                t = t + (ds[k % len(ds)] if ds else 0)
+                if t >= alive_until:
+                    break
+            k += 1
+        if len(ticks) < due:
+            bad.append('%s: %s(%r) from %r made %d ticks, %d were due before %r'
+                       % (name, spec['kind'], p, t0, len(ticks), due, alive_until))
+    return bad
+
+
+def gen_closed_ticker(rng, pmin=1):
+    p = rng.choice([q for q in (1, 2, 3, 4, 5, 7, 10) if q >= pmin])
+    ds = [rng.choice([0, 0, max(1, p // 2), p]) if p > 1 else rng.choice([0, 1]) for _ in range(rng.randint(0, 3))]
+    return dict(kind='interval' if rng.random() < 0.65 else 'delay', p=p, ds=ds)
+
+
+CLOSED_CORNERS = [
+    dict(mode='volatile', start=0, B=25, till=None, victims=[dict(kind='interval', p=10, ds=[])],
+         survivors=[dict(kind='interval', p=4, ds=[])], later=dict(kind='delay', p=10, ds=[], n=3)),
+    dict(mode='raise', start=0, B=5, till=None, victims=[dict(kind='delay', p=3, ds=[1])],
+         survivors=[dict(kind='interval', p=2, ds=[2])], later=dict(kind='interval', p=4, ds=[0, 4], n=3)),
+    dict(mode='until', start=3, B=7, till=None, victims=[dict(kind='interval', p=5, ds=[]), dict(kind='delay', p=4, ds=[])],
+         survivors=[dict(kind='delay', p=3, ds=[1])], later=dict(kind='delay', p=5, ds=[], n=2)),
+    dict(mode='till', start=0, B=25, till=33, victims=[dict(kind='interval', p=10, ds=[])],
+         survivors=[dict(kind='interval', p=4, ds=[])], later=dict(kind='delay', p=10, ds=[], n=3)),
+]
+
+
+def gen_closed(rng, i):
+    if i < len(CLOSED_CORNERS):
+        return CLOSED_CORNERS[i]
+    mode = rng.choice(['volatile', 'volatile', 'raise', 'until', 'till'])
+    victims = [gen_closed_ticker(rng, pmin=2) for _ in range(rng.randint(1, 2))]
+    survivors = [gen_closed_ticker(rng) for _ in range(rng.randint(1, 2))]
+    later = gen_closed_ticker(rng)
+    later['n'] = rng.randint(2, 5)
+    B = rng.randint(1, 25)
+    span = B + (later['n'] + 1) * later['p'] + sum(later['ds'] or [0]) * later['n']
+    return dict(mode=mode, start=rng.choice([0, 0, 3, 100]), B=B,
+                till=rng.randint(B + 1, span + 3) if mode == 'till' else None,
+                victims=victims, survivors=survivors, later=later)
+
+
+def closed_family(ctx, n_cases):
+    for i in range(n_cases):
+        case = gen_closed(ctx.rng, i)
+        res = run_closed(case)
+        key = dict(family='closed', **case)
+        mid_pause = any(l['ticks'] or l['t0'] is not None for n, l in res['logs'].items() if n.startswith('victim'))
+        ctx.count(key, nontrivial=mid_pause, validated=False)
+        ctx.bump('closed:mode:' + case['mode'])
+        problems = monitor_closed(case, res)
+        if problems:
+            ctx.fail(key, '; '.join(problems[:3]), family='closed')
+
+
 def _run_vertical(ctx):
     batch(ctx, ctx.n(300, 5000))
+    float_family(ctx, ctx.n(120, 1500))
+    closed_family(ctx, ctx.n(100, 1500))
 
 
 def search(ctx):
     """deeper monitor-only search (no model needed): many more random runs"""
     batch(ctx, ctx.n(4000, 20000), with_model=False)
+    float_family(ctx, ctx.n(1500, 6000))
+    closed_family(ctx, ctx.n(1500, 6000))
 
 
 def replay(ctx, rp):
     case = rp['case']
+    if case.get('family') in ('float', 'closed'):
+        if case['family'] == 'float':
+            problems = monitor_float(case, run_float(case))
+        else:
+            problems = monitor_closed(case, run_closed(case))
+        for p in problems:
+            print('C14 monitor:', p)
+        return not problems
     logs = run_tickers(case['start'], case['tickers'])
     ok = True
     for spec, log in zip(case['tickers'], logs):
@@ -359,6 +681,23 @@ def replay(ctx, rp):
 
 def shrink(ctx, failure):
     case = failure.case
+    if case.get('family') == 'float':
+        best = dict(case)
+        for n in range(1, case['n']):
+            cand = dict(case, n=n)
+            if monitor_float(cand, run_float(cand)):
+                best = cand
+                break
+        return best
+    if case.get('family') == 'closed':
+        best = dict(case)
+        for key in ('survivors', 'victims'):
+            while len(best[key]) > 1:
+                cand = dict(best, **{key: best[key][:-1]})
+                if not monitor_closed(cand, run_closed(cand)):
+                    break
+                best = cand
+        return best
     start, tickers = case['start'], [dict(t) for t in case['tickers']]
 
     def fails(st, tk):
